@@ -43,6 +43,8 @@ KIND_NAMES = {
     1202: 'C12/mse_responder: a scripted initiator (pads 0..712, bad req1 / key hash / VC, provide 0 and odd values, oversize PadC, lying payload length, truncation anywhere, short or garbage streams) against the real HandshakeIncoming vs Mse.responder (wire bytes, outcome class, selected method, everything the application reads)',
     1203: 'C12/mse_initiator: a scripted responder (pads 0..712, bad VC, selections 0 / several bits / not offered / high bits, oversize and lying PadD, truncation, short streams, second and fourth message coalesced) against the real HandshakeOutgoing vs Mse.initiator',
     1204: 'C12/policy: every consistent ForceIncoming/ForceOutgoing/DisableOutgoing setting through the real acceptor, incoming handshaker, dialer and outgoing handshaker of a torrent in the stepped loop, against scripted TCP peers (plain BitTorrent, MSE offering RC4 / clear / both; legacy clear-text-only listener, MSE listeners preferring RC4 / clear text / answering an invalid selection / hanging up) vs Mse.accept_policy and Mse.dial_policy: outcome class, connections made, which of them were clear text, clear text seen on the wire',
+    2001: 'C20/owners: ownership table of package torrent regenerated from the Go source by the translator (fields of torrent and Session, accesses with the locks held and the goroutine contexts of the accessing function, sends on command channels, lock nesting incl. database transactions) checked entry by entry by Owner.mon_owner',
+    2002: 'C20/api_stress: 4-11 client goroutines issue 40-120 public API calls each (stats, peers, trackers, web seeds, add peer by IP and host name, add tracker, start, stop, verify, announce, list/get, add+remove torrent, StartAll/StopAll, notify channels) on a live session with a 20 ms resume write interval: every call returns and the session closes',
     1901: 'C19/private_flag: metainfo.NewInfo on generated encodings of the private field (integers incl. out of int64 range, strings, lists, dictionaries, absent) vs Priv.priv_of_raw',
     1902: 'session/private: private, public and magnet torrents in the stepped event loop with a scripted HTTP tracker and scripted peers, DHT/PEX/dial switches on and off, optionally after a session restart: addresses known by source, DHT announcer and request queue, PEX senders, magnet export, metadata adoption, user agent / peer id / client version, dial of a probe listener vs Priv.v',
 }
@@ -87,6 +89,11 @@ PROPS = {
         'kinds': {1201: {'quick': 500, 'thorough': 8000}, 1202: {'quick': 700, 'thorough': 12000}, 1203: {'quick': 700, 'thorough': 12000}, 1204: {'quick': 600, 'thorough': 12000}},
         'trusted': ['SHA-1 and the Diffie-Hellman arithmetic of math/big: each side\'s req1/req2/req3 hashes and RC4 keys are oracle inputs of the model, recomputed by the harness from the private keys it served through crypto/rand.Reader (C12_dh_shared_secret proves that both secrets are equal)', 'crypto/rand.Reader is replaced while these cases run (pad lengths steered, private keys remembered); rand.Int(reader, 512) reads two bytes', 'the TCP stack of the loopback interface for kind 1204'],
         'assumptions': ['the synchronisation patterns do not occur in the random padding before their position (a 20-byte SHA-1 value, 8 bytes of key stream: probability below 2^-50 per handshake); stated as the no_early premises', 'the transport cannot deliver bytes of a message before it was sent: the first read of a side returns at most its peer\'s first message'],
+    },
+    'C20': {
+        'kinds': {2001: {'quick': 600, 'thorough': 600}, 2002: {'quick': 64, 'thorough': 1500}},
+        'trusted': ['the translator harness/root/verifhook/c20_owners.go: syntactic field/lock/call/goroutine extraction from /repo/torrent/*.go (go/parser, go/ast only; no type information: a *torrent is recognised by receiver, parameter type and the selector .torrent), static call graph, contexts by reachability', 'the Go memory model: an Unlock is synchronized before any later Lock of the same mutex; `go` statements and channel operations order as documented', 'the justified list in Owner.v (six accesses safe by publication, fork order or after Close)'],
+        'assumptions': ['one event-loop goroutine per torrent; constructors finish before the object is shared', 'pointees with their own synchronisation (counters, channels, the resource manager) are outside the table: only the fields of torrent and Session are tracked'],
     },
     'C19': {
         'kinds': {1901: {'quick': 3000, 'thorough': 60000}, 1902: {'quick': 1200, 'thorough': 30000}},
@@ -173,7 +180,7 @@ def distribution(pid, cases):
 
 # kinds whose observations carry wall-clock measurements: agreement is decided by the monitor
 # (model prediction compared with a tolerance), not by exact equality of the two outputs
-MONITOR_DECIDES = {1503, 1701}
+MONITOR_DECIDES = {1503, 1701, 2001}
 
 # kind -> (tag kind, names): the model is run a second time to histogram the branches the cases reach
 TAG_KINDS = {901: (902, {1: 'peer already downloading', 2: 'no pick allowed (choked)', 3: 'allowed-fast / sequential-first', 4: 'file edge or sequential', 5: 'stage reached, no candidate', 6: 'end-game pick', 7: 'end-game starts', 8: 'stalled re-request', 9: 'rarest'})}
@@ -212,4 +219,32 @@ def _sig_alloc_window(c):
     inp = c['in'] if isinstance(c['in'], list) else [int(x) for x in str(c['in']).split()]
     return len(inp) > 3 and inp[-1] == 1
 
+
+def _h31(s):
+    h = 0x811c9dc5
+    for c in s.encode():
+        h ^= c
+        h = (h * 0x01000193) & 0xffffffff
+    return h & 0x7fffffff
+
+C20_KNOWN = {
+    'K-C20-a': [('torrent.info', 'Torrent.AddTracker'), ('torrent.info', 'torrent.Files'), ('torrent.info', 'torrent.Magnet'), ('torrent.info', 'torrent.Torrent')],
+    'K-C20-b': [('torrent.port', 'Torrent.Port')],
+    'K-C20-c': [('torrent.pieces', 'torrent.FileStats')],
+    'K-C20-d': [('torrent.trackers', 'torrent.getTieredTrackers')],
+    'K-C20-e': [('Session.torrents', 'Session.CompactDatabase'), ('torrent.info', 'Session.CompactDatabase'), ('torrent.port', 'Session.CompactDatabase'),
+                ('torrent.completeCmdRun', 'Session.CompactDatabase'), ('torrent.allocator', 'torrent.status'), ('torrent.completed', 'torrent.status'),
+                ('torrent.errC', 'torrent.status'), ('torrent.info', 'torrent.status'), ('torrent.stoppedEventAnnouncer', 'torrent.status'), ('torrent.verifier', 'torrent.status')],
+    'K-C20-f': [('Session.invalidTorrentIDs', 'Session.CleanDatabase')],
+}
+
+def _sig_c20(pairs):
+    hs = {(_h31(f), _h31(g)) for f, g in pairs}
+    def sig(c):
+        inp = c['in'] if isinstance(c['in'], list) else [int(x) for x in str(c['in']).split()]
+        return c.get('kind') == 2001 and len(inp) >= 3 and inp[0] == 1 and (inp[1], inp[2]) in hs
+    return sig
+
 SIGNATURES = {'K-C04-g': _sig_external_corruption, 'K-C05-a': _sig_alloc_window}
+for _k, _v in C20_KNOWN.items():
+    SIGNATURES[_k] = _sig_c20(_v)
